@@ -121,6 +121,11 @@ pub fn serve(f: impl Fn(&str, usize, &[&str]) -> String) {
             continue;
         }
         let bits: usize = parts[1].parse().unwrap();
+        if parts[0] == "__hooks" {
+            // coverage counters of this process (ruint built with --cfg recmo_uint_verif)
+            writeln!(out, "{}", hooks_line()).unwrap();
+            continue;
+        }
         let r = catch_unwind(AssertUnwindSafe(|| f(parts[0], bits, &parts[2..])));
         match r {
             Ok(s) => writeln!(out, "{s}").unwrap(),
@@ -128,4 +133,16 @@ pub fn serve(f: impl Fn(&str, usize, &[&str]) -> String) {
         }
     }
     out.flush().unwrap();
+}
+
+/// Counters of `ruint::verif_hooks` (all zero when the crate was built without the guard).
+pub fn hooks_line() -> String {
+    #[cfg(recmo_uint_verif)]
+    {
+        out_limbs(&ruint::verif_hooks::snapshot())
+    }
+    #[cfg(not(recmo_uint_verif))]
+    {
+        "L:".to_string()
+    }
 }
